@@ -34,31 +34,31 @@ ZSplit(s, sep) == SplitFrom(s, sep, 1, 1)
 RECURSIVE ZJoin(_, _)
 ZJoin(ps, sep) == IF Len(ps) = 0 THEN <<>> ELSE IF Len(ps) = 1 THEN ps[1] ELSE ps[1] \o sep \o ZJoin(Tail(ps), sep)
 
-Ok(v, m, s) == [st |-> "ok", vendor |-> v, model |-> m, serial |-> s]
-Err == [st |-> "err"]
+ZOk(v, m, s) == [st |-> "ok", vendor |-> v, model |-> m, serial |-> s]
+ZErr == [st |-> "err"]
 None == [st |-> "none"]
 
 \* ---- DHCPv4: class identifier (60) first, then the vendor-identifying vendor class (124)
 Class4(vc, host, cid) ==
-    CASE HasPrefix(vc, S_Arista) -> LET p == ZSplit(vc, <<Semi>>) IN IF Len(p) < 4 THEN Err ELSE Ok(p[1], p[2], p[4])
-      [] HasPrefix(vc, S_Zpe) -> LET p == ZSplit(vc, <<Colon>>) IN IF Len(p) < 3 THEN Err ELSE Ok(p[1], p[2], p[3])
+    CASE HasPrefix(vc, S_Arista) -> LET p == ZSplit(vc, <<Semi>>) IN IF Len(p) < 4 THEN ZErr ELSE ZOk(p[1], p[2], p[4])
+      [] HasPrefix(vc, S_Zpe) -> LET p == ZSplit(vc, <<Colon>>) IN IF Len(p) < 3 THEN ZErr ELSE ZOk(p[1], p[2], p[3])
       [] HasPrefix(vc, S_JunDash) ->
             LET p == ZSplit(vc, <<Dash>>) IN
-            IF Len(p) < 3 THEN (IF host = <<>> THEN Err ELSE Ok(p[1], p[2], host))     \* serial in the host name option
-            ELSE Ok(p[1], ZJoin(SubSeq(p, 2, Len(p) - 1), <<Dash>>), p[Len(p)])          \* the model may contain dashes
-      [] HasPrefix(vc, S_JunColon) -> LET p == ZSplit(vc, <<Colon>>) IN IF Len(p) = 3 THEN Ok(p[1], p[2], p[3]) ELSE Err
+            IF Len(p) < 3 THEN (IF host = <<>> THEN ZErr ELSE ZOk(p[1], p[2], host))     \* serial in the host name option
+            ELSE ZOk(p[1], ZJoin(SubSeq(p, 2, Len(p) - 1), <<Dash>>), p[Len(p)])          \* the model may contain dashes
+      [] HasPrefix(vc, S_JunColon) -> LET p == ZSplit(vc, <<Colon>>) IN IF Len(p) = 3 THEN ZOk(p[1], p[2], p[3]) ELSE ZErr
       [] HasPrefix(vc, S_1271) ->
             LET p == ZSplit(vc, <<Dash>>) IN
-            IF Len(p) # 3 THEN Err ELSE IF cid = <<>> THEN Err ELSE Ok(N_Ciena, p[2] \o <<Dash>> \o p[3], cid)
-      [] vc \in {S_Fpr41, S_Fpr93} -> IF cid = <<>> THEN Err ELSE Ok(N_CiscoSys, vc, cid)
+            IF Len(p) # 3 THEN ZErr ELSE IF cid = <<>> THEN ZErr ELSE ZOk(N_Ciena, p[2] \o <<Dash>> \o p[3], cid)
+      [] vc \in {S_Fpr41, S_Fpr93} -> IF cid = <<>> THEN ZErr ELSE ZOk(N_CiscoSys, vc, cid)
       [] OTHER -> None
 
 \* SN:...;PID:... fields of the first Cisco entry; later fields override earlier ones
 RECURSIVE CiscoFields(_, _, _)
 CiscoFields(fs, model, serial) ==
-    IF fs = <<>> THEN Ok(N_CiscoSys, model, serial)
+    IF fs = <<>> THEN ZOk(N_CiscoSys, model, serial)
     ELSE LET p == ZSplit(Head(fs), <<Colon>>) IN
-         IF Len(p) # 2 THEN Err
+         IF Len(p) # 2 THEN ZErr
          ELSE IF p[1] = <<83, 78>> THEN CiscoFields(Tail(fs), model, p[2])             \* "SN"
          ELSE IF p[1] = <<80, 73, 68>> THEN CiscoFields(Tail(fs), p[2], serial)        \* "PID"
          ELSE CiscoFields(Tail(fs), model, serial)
@@ -72,7 +72,7 @@ Vivc4(raw) ==
 Ztp4(p) ==
     LET c == Class4(Opt4(p, 60), TrimNul(Opt4(p, 12)), Opt4(p, 61)) IN
     IF c.st # "none" THEN c
-    ELSE LET v == Vivc4(Opt4(p, 124)) IN IF v.st # "none" THEN v ELSE Err
+    ELSE LET v == Vivc4(Opt4(p, 124)) IN IF v.st # "none" THEN v ELSE ZErr
 
 \* ---- DHCPv6: vendor options (17) win over vendor class (16); options of the outermost message only
 \* serial of a Ciena device: enterprise identifier of the DUID-EN client id of the innermost message
@@ -82,26 +82,26 @@ CienaSerial6(m) ==
     ELSE LET d == ClientId6(im[1].opts) IN IF d # <<>> /\ d[1] = <<0, 2>> THEN d[3] ELSE <<>>
 RECURSIVE Scan6(_, _)
 Scan6(ds, m) ==
-    IF ds = <<>> THEN Err
+    IF ds = <<>> THEN ZErr
     ELSE LET d == Head(ds) IN
          CASE HasPrefix(d, S_Arista) \/ HasPrefix(d, S_Cisco) ->
-                 LET p == ZSplit(d, <<Semi>>) IN IF Len(p) < 4 THEN Err ELSE Ok(p[1], p[2], p[4])
-           [] HasPrefix(d, S_Zpe) -> LET p == ZSplit(d, <<Colon>>) IN IF Len(p) < 3 THEN Err ELSE Ok(p[1], p[2], p[3])
-           [] HasPrefix(d, S_Nvos) -> LET p == ZSplit(d, <<Hash, Hash>>) IN IF Len(p) < 3 THEN Err ELSE Ok(p[1], p[2], p[3])
+                 LET p == ZSplit(d, <<Semi>>) IN IF Len(p) < 4 THEN ZErr ELSE ZOk(p[1], p[2], p[4])
+           [] HasPrefix(d, S_Zpe) -> LET p == ZSplit(d, <<Colon>>) IN IF Len(p) < 3 THEN ZErr ELSE ZOk(p[1], p[2], p[3])
+           [] HasPrefix(d, S_Nvos) -> LET p == ZSplit(d, <<Hash, Hash>>) IN IF Len(p) < 3 THEN ZErr ELSE ZOk(p[1], p[2], p[3])
            [] HasPrefix(d, S_1271) ->
                  LET p == ZSplit(d, <<Dash>>) IN
-                 IF Len(p) < 3 THEN Err ELSE Ok(N_Ciena, p[2] \o <<Dash>> \o p[3], CienaSerial6(m))
+                 IF Len(p) < 3 THEN ZErr ELSE ZOk(N_Ciena, p[2] \o <<Dash>> \o p[3], CienaSerial6(m))
            [] OTHER -> Scan6(Tail(ds), m)
 \* Mellanox spreads the data over sub-options 1 (model) and 3 (serial); the last instance of each wins
 LastSub(subs, c) == LET s == SelectSeq(subs, LAMBDA o : o.c = c) IN IF s = <<>> THEN <<>> ELSE s[Len(s)].v[1]
 Ztp6(m) ==
     LET o16 == First(m.opts, 16)
         o17 == First(m.opts, 17) IN
-    IF o16 = <<>> /\ o17 = <<>> THEN Err
+    IF o16 = <<>> /\ o17 = <<>> THEN ZErr
     ELSE IF o17 # <<>> THEN
          (IF o17[1].v[1] = EntMellanox
           THEN LET model == LastSub(o17[1].v[2], 1) serial == LastSub(o17[1].v[2], 3) IN
-               IF model = <<>> \/ serial = <<>> THEN Err ELSE Ok(N_Mellanox, model, serial)
+               IF model = <<>> \/ serial = <<>> THEN ZErr ELSE ZOk(N_Mellanox, model, serial)
           ELSE Scan6([i \in 1..Len(o17[1].v[2]) |-> o17[1].v[2][i].v[1]], m))
     ELSE Scan6(o16[1].v[2], m)
 =============================================================================
